@@ -641,7 +641,7 @@ class FX:
                         out[k] = va
                     elif snap is not None and isinstance(snap.get(k), ast.Name) and snap[k].id == k:
                         out[k] = snap[k]        # normalisation of a symbolic parameter: stays symbolic
-                    elif cond is not None and len(norm(va)) + len(norm(vb)) < 160:
+                    elif cond is not None and len(norm(va)) + len(norm(vb)) < 120:
                         out[k] = ast.IfExp(test=copy.deepcopy(cond), body=copy.deepcopy(va), orelse=copy.deepcopy(vb))
                     elif is_attr:
                         out[k] = _path_ast(k)
@@ -1075,6 +1075,14 @@ class FX:
             nm = self._fresh_name(targets, env, None)
             if nm is not None:
                 self.decl[norm(nm)] = (norm(f), self._canon_call(inner, env), list(self.pyguards))
+                return nm
+        # --- any other call stored into an attribute of self: a fresh object named by the attribute
+        if targets and name and name not in PURE_FUNCS and not name[0].isupper() and \
+                any(isinstance(t, ast.Attribute) and _is_name(t.value, "self") for t in targets):
+            nm = self._fresh_name(targets, env, None)
+            if nm is not None:
+                self._inst(norm(nm), norm(f), self._canon_call(inner, env), [self.canon(w, env) for w in wrappers],
+                           st or inner, "assign")
                 return nm
         # --- constructor of a hardware object / submodule (capitalised callee)
         if name and (name[0].isupper() or name in ("Signal",)) and isinstance(inner, ast.Call) and \
@@ -1695,6 +1703,10 @@ def _imported_mods(ctx, mod, depth=0, seen=None):
                     out.extend(_imported_mods(ctx, m, depth + 1, seen))
     return out
 
+
+PURE_FUNCS = {"len", "log2_int", "max", "min", "int", "bits_for", "range", "list", "dict", "set", "sorted", "getattr",
+              "abs", "sum", "tuple", "str", "float", "round", "bool", "hasattr", "isinstance", "reversed", "zip",
+              "enumerate", "ceil", "floor", "log2", "format", "type", "divmod", "any", "all", "get", "copy", "deepcopy"}
 
 FRESH_METHODS = {"get_port", "like", "request", "request_all", "request_remaining"}
 
